@@ -10,11 +10,13 @@
    is not modified.
 
    usage : c08_driver <scratch-dir>          (CA files are written there)
-   input : "<kind> <mode> <entry> <ca> [silent_ms] [announce=<name the server calls itself>] [domain=<domain of the JID>]"
+   input : "<kind> <mode> <entry> <ca> [silent_ms] [announce=<name the server calls itself>] [domain=<domain of the JID>]
+           [hist=<A|R|N...> handlers set on the connection object before the cell's own mode is applied]"
            (the JID is user@xmpp.example.com unless domain= says otherwise, e.g. 4chat.example.org)
              kind  : valid wrongname partial expired notyet untrusted selfsigned fullwild silent
                      dvalid dprefix dsuffix dwild dpartial (good chain; SAN 4chat.example.org, 4chat.example.org.example.net,
                      x4chat.example.org, *.example.org, 4c*.example.org)
+                     expired10m notyet10m (ten minutes outside the validity period)
                      announced (good chain, SAN = another name, which the server also announces as `from`)
                      chainok (root -> intermediate -> leaf) chainexp (root -> EXPIRED intermediate -> leaf)
              mode  : T (trust flag) | N (no callback) | A (callback accepts) | R (callback rejects)
@@ -31,6 +33,9 @@
                                           verdict is about (X509_STORE_CTX_get_current_cert, read by the shim)
      sh=<roles>                           role of the certificate the user handler was shown at each invocation
      cb=<n>:<cn>,...                      user certfail handler invocations (subject CN of the certificate)
+     stale=<n>                            calls of a handler that had been replaced or removed before connecting (hist=)
+     hsec=<bits>/<bits>                   xmpp_conn_is_secured while the handshake runs: at every verify-callback
+                                          invocation / at every call of the user handler
      ts=<n>                               number of handshakes started (SSL_connect sequences)
      ev=C<sec>|D<sec>/<err>,...           connection events with xmpp_conn_is_secured at that moment (and the error code
                                           of the disconnect: 0, ABRT, RST, TMO or the number)
@@ -74,8 +79,8 @@ static long now_ms(void)
 }
 
 /* ------------------------------------------------------------------ certificates */
-enum { K_VALID, K_WRONGNAME, K_PARTIAL, K_EXPIRED, K_NOTYET, K_UNTRUSTED, K_SELFSIGNED, K_FULLWILD, K_CHAINOK, K_CHAINEXP, K_ANNOUNCED, K_DVALID, K_DPREFIX, K_DSUFFIX, K_DWILD, K_DPARTIAL, K_N };
-static const char *kind_names[] = {"valid", "wrongname", "partial", "expired", "notyet", "untrusted", "selfsigned", "fullwild", "chainok", "chainexp", "announced", "dvalid", "dprefix", "dsuffix", "dwild", "dpartial"};
+enum { K_VALID, K_WRONGNAME, K_PARTIAL, K_EXPIRED, K_NOTYET, K_UNTRUSTED, K_SELFSIGNED, K_FULLWILD, K_CHAINOK, K_CHAINEXP, K_ANNOUNCED, K_DVALID, K_DPREFIX, K_DSUFFIX, K_DWILD, K_DPARTIAL, K_EXPIRED10M, K_NOTYET10M, K_N };
+static const char *kind_names[] = {"valid", "wrongname", "partial", "expired", "notyet", "untrusted", "selfsigned", "fullwild", "chainok", "chainexp", "announced", "dvalid", "dprefix", "dsuffix", "dwild", "dpartial", "expired10m", "notyet10m"};
 static EVP_PKEY *ca_key, *ca2_key, *leaf_key[K_N];
 static X509 *ca_crt, *ca2_crt, *leaf_crt[K_N];
 static EVP_PKEY *int_key, *intx_key;
@@ -135,6 +140,9 @@ static void mint_all(const char *dir)
     /* partial wildcard in the left-most label: matches the domain unless X509_CHECK_FLAG_NO_PARTIAL_WILDCARDS */
     leaf_crt[K_PARTIAL] = mk_cert("leaf-partial", "DNS:xm*.example.com", leaf_key[K_PARTIAL], ca_crt, ca_key, -DAY, 30 * DAY, 0);
     leaf_crt[K_EXPIRED] = mk_cert("leaf-expired", "DNS:" DOMAIN, leaf_key[K_EXPIRED], ca_crt, ca_key, -3 * DAY, -DAY, 0);
+    /* just outside the validity period: expired ten minutes ago / valid from ten minutes in the future */
+    leaf_crt[K_EXPIRED10M] = mk_cert("leaf-expired10m", "DNS:" DOMAIN, leaf_key[K_EXPIRED10M], ca_crt, ca_key, -DAY, -600, 0);
+    leaf_crt[K_NOTYET10M] = mk_cert("leaf-notyet10m", "DNS:" DOMAIN, leaf_key[K_NOTYET10M], ca_crt, ca_key, 600, DAY, 0);
     leaf_crt[K_NOTYET] = mk_cert("leaf-notyet", "DNS:" DOMAIN, leaf_key[K_NOTYET], ca_crt, ca_key, DAY, 3 * DAY, 0);
     leaf_crt[K_UNTRUSTED] = mk_cert("leaf-untrusted", "DNS:" DOMAIN, leaf_key[K_UNTRUSTED], ca2_crt, ca2_key, -DAY, 30 * DAY, 0);
     leaf_crt[K_SELFSIGNED] = mk_cert("leaf-selfsigned", "DNS:" DOMAIN, leaf_key[K_SELFSIGNED], NULL, NULL, -DAY, 30 * DAY, 0);
@@ -190,7 +198,7 @@ static struct {
     char host[128]; /* the reference identity the SSL object carries at SSL_connect time */
     unsigned hostflags;
     int (*orig_cb)(int, X509_STORE_CTX *);
-    int nv, pre[MAXV], ret[MAXV], depth[MAXV], err[MAXV], role[MAXV];
+    int nv, pre[MAXV], ret[MAXV], depth[MAXV], err[MAXV], role[MAXV], sec[MAXV];
     int calls, last_err;
     long t_first, t_last_ret;
     unsigned char cw[2][2048]; size_t ncw[2]; /* plaintext written by the library with send(): before / after the handshake began */
@@ -212,14 +220,17 @@ static int role_of_x509(X509 *c)
     return role_of_cn(cn);
 }
 
+static xmpp_conn_t *g_conn; /* the connection of the current case */
+
 static int log_verify(int pre, X509_STORE_CTX *x)
 {
+    int sec = g_conn ? xmpp_conn_is_secured(g_conn) : 0; /* while the handshake is still running */
     int depth = X509_STORE_CTX_get_error_depth(x);
     int err = X509_STORE_CTX_get_error(x);
     int role = role_of_x509(X509_STORE_CTX_get_current_cert(x)); /* the certificate the verdict is about */
     int r = obs.orig_cb ? obs.orig_cb(pre, x) : pre;
     if (obs.nv < MAXV) {
-        obs.pre[obs.nv] = pre; obs.ret[obs.nv] = r; obs.depth[obs.nv] = depth; obs.err[obs.nv] = err; obs.role[obs.nv] = role;
+        obs.pre[obs.nv] = pre; obs.ret[obs.nv] = r; obs.depth[obs.nv] = depth; obs.err[obs.nv] = err; obs.role[obs.nv] = role; obs.sec[obs.nv] = sec;
         obs.nv++;
     }
     return r;
@@ -272,7 +283,23 @@ static struct {
     char shown[64]; /* role (0 leaf, 1 intermediate, 2 root) of each certificate the handler was shown */
     char ev[128];
     int ndisc, secmax, secfin;
+    char cbsec[64]; /* xmpp_conn_is_secured at the time of each call of the handler */
+    int stale;      /* calls of a handler that was installed earlier and replaced / removed since */
 } usr;
+
+/* handlers that are installed first and then replaced or removed (option hist=) */
+static int stale_accept(const xmpp_tlscert_t *cert, const char *const errormsg)
+{
+    (void)cert; (void)errormsg;
+    usr.stale++;
+    return 1;
+}
+static int stale_reject(const xmpp_tlscert_t *cert, const char *const errormsg)
+{
+    (void)cert; (void)errormsg;
+    usr.stale++;
+    return 0;
+}
 
 static int certfail(const xmpp_tlscert_t *cert, const char *const errormsg)
 {
@@ -285,6 +312,7 @@ static int certfail(const xmpp_tlscert_t *cert, const char *const errormsg)
     {
         int role = role_of_cn(cn ? cn + 3 : NULL);
         if ((size_t)usr.n + 1 < sizeof usr.shown) usr.shown[usr.n] = (char)('0' + role);
+        if ((size_t)usr.n + 1 < sizeof usr.cbsec) usr.cbsec[usr.n] = (char)('0' + (g_conn ? xmpp_conn_is_secured(g_conn) : 0));
         if (usr.script[0] == 'P') ans = (usr.script[1] - '0' == role) ? 1 : 0;      /* accept only the pinned one */
         else if (usr.script[0] == 'Q') ans = (usr.script[1] - '0' == role) ? 0 : 1; /* reject only that one */
     }
@@ -527,13 +555,14 @@ int main(int argc, char **argv)
         char tc[64], tt[64], tr[64], w0[64], w1[64];
 
         if (!line[0] || line[0] == '#') { puts(""); continue; }
-        char opt_s[3][160] = {"", "", ""}, announce[128] = "", jid[160];
+        char opt_s[3][160] = {"", "", ""}, announce[128] = "", jid[160], hist[16] = "";
         int oi;
         if (sscanf(line, "%31s %31s %31s %31s %159s %159s %159s", kind_s, mode_s, entry_s, ca_s, opt_s[0], opt_s[1], opt_s[2]) < 4) { puts("bad-input"); fflush(stdout); continue; }
         snprintf(g_domain, sizeof g_domain, "%s", DOMAIN);
         for (oi = 0; oi < 3; oi++) {
             if (!strncmp(opt_s[oi], "announce=", 9)) snprintf(announce, sizeof announce, "%s", opt_s[oi] + 9);
             else if (!strncmp(opt_s[oi], "domain=", 7)) snprintf(g_domain, sizeof g_domain, "%s", opt_s[oi] + 7);
+            else if (!strncmp(opt_s[oi], "hist=", 5)) snprintf(hist, sizeof hist, "%s", opt_s[oi] + 5);
             else if (opt_s[oi][0]) silent_ms = atoi(opt_s[oi]);
         }
         if (!announce[0]) snprintf(announce, sizeof announce, "%s", !strcmp(kind_s, "announced") ? OTHER_NAME : g_domain);
@@ -552,13 +581,18 @@ int main(int argc, char **argv)
         pthread_create(&th, NULL, server_main, srv);
 
         conn = xmpp_conn_new(ctx);
+        g_conn = conn;
         xmpp_conn_set_jid(conn, jid);
         xmpp_conn_set_pass(conn, "secret");
         if (mode_s[0] == 'T') flags |= XMPP_CONN_FLAG_TRUST_TLS;
         if (srv->legacy) flags |= XMPP_CONN_FLAG_LEGACY_SSL;
         if (strstr(entry_s, "+m")) flags |= XMPP_CONN_FLAG_MANDATORY_TLS;
         xmpp_conn_set_flags(conn, flags);
+        /* earlier settings of the handler on the same connection object: A accept-all, R reject-all, N removed */
+        for (i = 0; hist[i]; i++)
+            xmpp_conn_set_certfail_handler(conn, hist[i] == 'A' ? stale_accept : hist[i] == 'R' ? stale_reject : NULL);
         if (strchr("ARSPQ", mode_s[0])) xmpp_conn_set_certfail_handler(conn, certfail);
+        else if (hist[0]) xmpp_conn_set_certfail_handler(conn, NULL); /* the final state is "no handler" */
         if (!strcmp(ca_s, "ca")) xmpp_conn_set_cafile(conn, ca_file);
         else if (!strcmp(ca_s, "badca")) xmpp_conn_set_cafile(conn, bad_file);
         else if (!strcmp(ca_s, "cadir")) xmpp_conn_set_capath(conn, ca_dir);
@@ -593,6 +627,10 @@ int main(int argc, char **argv)
         if (!obs.nv) printf("-");
         for (i = 0; i < obs.nv; i++) printf("%s%d:%d:%d", i ? "," : "", obs.depth[i], obs.err[i], obs.role[i]);
         printf(" cb=%d:%s sh=%s ts=%d", usr.n, usr.n ? usr.who : "-", usr.n ? usr.shown : "-", obs.handshakes);
+        printf(" stale=%d hsec=", usr.stale);
+        if (!obs.nv) printf("-");
+        for (i = 0; i < obs.nv; i++) printf("%d", obs.sec[i]);
+        printf("/%s", usr.n ? usr.cbsec : "-");
         printf(" ev=%s sec=%d/%d", usr.ev[0] ? usr.ev : "-", usr.secmax, usr.secfin);
         tokens(srv->clr, srv->nclr, tc, sizeof tc);
         tokens(srv->enc, srv->nenc, tt, sizeof tt);
@@ -607,6 +645,7 @@ int main(int argc, char **argv)
         printf(" hang=%d\n", hang);
         fflush(stdout);
 
+        g_conn = NULL;
         xmpp_conn_release(conn);
         free(srv);
     }
